@@ -58,12 +58,14 @@ CLAIMED = {
         design="§3 C20"),
     "C03": dict(
         text="Lean 4 theorems (any field): back substitution inverts the triangular product and vice versa for every size "
-             "and every row — the daun forward/inverse pair (degrees 0-2) — with the degree-0 diagonal positivity and "
-             "triangularity proved over the reals; matrix-pair round trip for basex/rbasex/daun-3. Tied to the code by "
+             "and every row; the Daun bases of degree 0, 1, 2 and every rBasex radial matrix P[n] are lower-triangular with positive "
+             "diagonal at every size (over the reals, from their Abel-integral theorems: nothing of a basis function inside the "
+             "cylinder is seen, and the diagonal integrates a non-negative function that is positive on a stretch of the line of "
+             "sight), hence their forward/inverse pairs undo each other exactly; matrix-pair round trip for basex/daun-3. Tied to the code by "
              "entrywise comparison of the Lean matrices/solves with the implementation's arrays and by structure checks on "
              "its bases; round trips on random rows (exact class) and smooth profiles (approximate class) as oracle.",
-        note="Trusted: Lean kernel + standard axioms; correspondence sizes 2..40 (quick) / ..150 (thorough); diagonal "
-             "non-vanishing for daun degree 1-2 and rbasex, and G·F = 1 for basex / daun degree 3, are measured; approximate-class "
+        note="Trusted: Lean kernel + standard axioms; correspondence sizes 2..40 (quick) / ..150 (thorough); "
+             "G·F = 1 for basex / daun degree 3 is measured; approximate-class "
              "limits are 2x the pinned tree's error.",
         technique="Lean 4 proof (induction over back substitution) + operator-level differential correspondence",
         design="§3 C03"),
